@@ -1218,6 +1218,8 @@ class AstEval:
                     await func.trigger_init(self.global_ctx, name)
                 except Exception as e:
                     self.log_exception(e)
+                    # undo whatever was registered (eg, services) before the failure
+                    func.trigger_stop()
                 func_var = EvalFuncVar(func)
                 func_var.set_ast_ctx(self)
 
